@@ -117,12 +117,27 @@ def gen_history(rnd, thorough):
     return chans, ops
 
 
+FORCE_STALE = [None]
+
+
+def stale_errno(hid):
+    if FORCE_STALE[0] is not None:
+        return FORCE_STALE[0]
+    """every second history delivers with a stale EINTR / EAGAIN in the interrupted code's errno (probe op 7
+    instead of 5): the model and the monitors do not distinguish the two"""
+    try:
+        return int(str(hid).lstrip('hH') or 0) % 2 == 1
+    except ValueError:
+        return False
+
+
 def probe_line(hid, chans, ops):
     v = [len(chans)]
     for c in chans:
         v += list(c)
+    st = stale_errno(hid)
     for o in ops:
-        v += list(o)
+        v += [7] + list(o[1:]) if (st and o[0] == 5) else list(o)
     return '%s %s' % (hid, ' '.join(str(x) for x in v))
 
 
@@ -472,9 +487,15 @@ def replay(ctx, path):
     chans = [tuple(v[1 + 5 * i:6 + 5 * i]) for i in range(n)]
     p, ops = 1 + 5 * n, []
     while p < len(v):
-        ln = {1: 4, 5: 3, 3: 3, 4: 2, 6: 1}[v[p]]
-        ops.append(tuple(v[p:p + ln]))
+        ln = {1: 4, 5: 3, 7: 3, 3: 3, 4: 2, 6: 1}[v[p]]
+        if v[p] == 7:
+            FORCE_STALE[0] = True
+            ops.append((5,) + tuple(v[p + 1:p + ln]))
+        else:
+            ops.append(tuple(v[p:p + ln]))
         p += ln
+    if FORCE_STALE[0] is None:
+        FORCE_STALE[0] = False
     run(ctx, only=[(chans, ops)])
     for x in ctx.violations:
         print('REPRODUCED:', x['what'])
